@@ -265,6 +265,7 @@ func predSearch(c searchCase, o *evid.Obs) error {
 	}
 
 	sharedIDTags(&c, refs[0], from, to, o)
+	aggTags(&c, refs[0], from, to, o)
 	patternTags(&c, from, to, o)
 	orTags(&c, from, to, o)
 	numericTags(&c, from, to, o)
@@ -454,6 +455,91 @@ func sharedIDTags(c *searchCase, ref []refeval.TQTraceResult, from, to int64, o 
 	if foreign && nsel >= 2 && len(sets) >= 2 {
 		o.Tag("span-ids-repeat:decisive")
 	}
+}
+
+// aggTags: count thresholds around the span cap, and aggregates over an attribute that a term
+// inside an `||` of the same selector also tests, with a matched span whose value fails it.
+func aggTags(c *searchCase, ref []refeval.TQTraceResult, from, to int64, o *evid.Obs) {
+	if len(c.Q.Sels) != 1 || c.Q.Sels[0].Agg == nil {
+		return
+	}
+	sel := &c.Q.Sels[0]
+	if sel.Agg.Fn == "count" {
+		n, err := strconv.ParseFloat(sel.Agg.Num, 64)
+		if err != nil || n < 99 {
+			return
+		}
+		o.Tag("count-threshold>=99")
+		plain, err := refeval.EvalTraceQL(&refeval.TQScript{Sels: []refeval.TQSelector{{Expr: sel.Expr}}}, &c.DB, from, to, refeval.TQReadStd)
+		if err != nil {
+			return
+		}
+		for _, t := range plain {
+			if len(t.Spans) > refeval.TQSpanCap {
+				o.Tag("count:trace-above-span-cap")
+				if float64(len(t.Spans)) >= n && n > float64(refeval.TQSpanCap) {
+					o.Tag("count:threshold-between-cap-and-count")
+				}
+				break
+			}
+		}
+		return
+	}
+	key, isDur, err := refeval.TQKeyOfLabel(sel.Agg.Attr)
+	if err != nil || isDur || sel.Expr == nil || !sel.Expr.MixedOps() && !hasOr(sel.Expr) {
+		return
+	}
+	var same []*refeval.TQTerm
+	sel.Expr.Terms(func(t *refeval.TQTerm) {
+		if k, d, e := refeval.TQKeyOfLabel(t.Label); e == nil && !d && k == key {
+			same = append(same, t)
+		}
+	})
+	if len(same) == 0 {
+		return
+	}
+	o.Tag("agg-over-filtered-attr")
+	matched := map[string]bool{}
+	for _, t := range ref {
+		for _, id := range t.Spans {
+			matched[t.ID+"/"+id] = true
+		}
+	}
+	for ti := range c.DB.Traces {
+		for si := range c.DB.Traces[ti].Spans {
+			sp := &c.DB.Traces[ti].Spans[si]
+			if !matched[c.DB.Traces[ti].ID+"/"+sp.ID] {
+				continue
+			}
+			for _, t := range same {
+				one := refeval.TQDB{Traces: []refeval.TQTrace{{ID: "t", Spans: []refeval.TQSpan{*sp}}}}
+				r, err := refeval.EvalTraceQL(&refeval.TQScript{Sels: []refeval.TQSelector{{Expr: &refeval.TQExpr{Heads: []refeval.TQHead{{Term: t}}}}}}, &one, from, to, refeval.TQReadStd)
+				if err != nil {
+					continue
+				}
+				for _, kv := range sp.AllAttrs() {
+					if _, isNum := refeval.TQNumericAttr(kv.V); kv.K == key && isNum && r[0].State == refeval.TQNo {
+						o.Tag("agg-over-filtered-attr:decisive")
+						return
+					}
+				}
+			}
+		}
+	}
+}
+
+func hasOr(e *refeval.TQExpr) bool {
+	for _, op := range e.Ops {
+		if op == "||" {
+			return true
+		}
+	}
+	for _, h := range e.Heads {
+		if h.Paren != nil && hasOr(h.Paren) {
+			return true
+		}
+	}
+	return false
 }
 
 // patternTags: kinds of regex patterns in the query (and whether a span in the window carries,
